@@ -942,6 +942,20 @@ class ANF:
                         and _listlike(env[f.value.id]):
                     # lst.append(x) is lst += [x] for a local list
                     env[f.value.id] = ("op", "++", env[f.value.id], ("list", (args[0],)))
+                if isinstance(f.value, ast.Name) and f.value.id in ("cls", "self") and recv == N(f.value.id) and self.fi.cls is not None \
+                        and self.auto_inline and not is_atom(f.attr) and self._depth < AUTO_INLINE_DEPTH \
+                        and not any(isinstance(a_, tuple) and a_ and a_[0] == "star" for a_ in args):
+                    # a method of the class that no rule names (a helper a refactoring extracted): substituted like a function
+                    try:
+                        gm = self.ix.lookup_method(self.fi.cls, f.attr)
+                    except Exception:   # noqa
+                        gm = None
+                    if gm is not None and gm.qualname not in self._stack and gm.qualname != self.fi.qualname \
+                            and gm.node.args.vararg is None and not any(isinstance(n_, (ast.Yield, ast.YieldFrom)) for n_ in ast.walk(gm.node)):
+                        decos = gm.decorators()
+                        if all(d_ in ("classmethod", "staticmethod") for d_ in decos):
+                            margs = list(args) if "staticmethod" in decos else [recv] + list(args)
+                            return self.inline_call(gm.qualname, e, margs, kw, cond, loops, g=gm)
                 if f.attr == "get" and len(args) == 1 and not kw:
                     args = args + [C(None)]         # mapping.get(k) is mapping.get(k, None)
                 if f.attr == "update" and len(args) == 1 and not kw and args[0][0] == "dict" and not _setlike(recv) \
@@ -1114,8 +1128,8 @@ class ANF:
                 env[k_] = v
         return self._merge_returns(n0, cond)
 
-    def inline_call(self, qual, e, args, kw, cond, loops):
-        g = self.ix.func(qual)
+    def inline_call(self, qual, e, args, kw, cond, loops, g=None):
+        g = g if g is not None else self.ix.func(qual)
         sub = ANF(self.ix, g, inline=self.inline, strip=self.strip, options=self.options, method_consts=self.method_consts)
         sub.res = self.res
         sub._seq, sub._bound, sub._loop = self._seq, self._bound, self._loop + 100
